@@ -155,6 +155,18 @@ Example C04_fallback_reads_nonvacuous :
   u_trace (x_copy_range_uspace 5 300000 0 [XOk 200000; XOk 200000; XOk 100000; XOk 100000]) =
     [(URead 0 300000, XOk 200000); (UWrite 0 0 200000, XOk 200000); (URead 200000 100000, XOk 100000); (UWrite 200000 200000 100000, XOk 100000)]%N.
 Proof. vm_compute. reflexivity. Qed.
+Theorem C04_src_fallback_buffer_holds_every_write : forall fuel nbytes off ans,
+  uans_bounded (u_trace (x_copy_range_uspace fuel nbytes off ans)) ->
+  writes_fit (x_copy_range_uspace_buf_len nbytes off) (u_trace (x_copy_range_uspace fuel nbytes off ans)).
+Proof. exact x_range_buffer_holds_every_write. Qed.
+(* the inventory of panic sites in everything a pool job runs is closed: the job's own panic! under a failed send, and the
+   two slices just shown to be in range *)
+Theorem C04_src_pool_job_panic_sites :
+  x_pool_job_panic_sites = [("parblock::queue_file_range(job)", "panic! under letErr(e)=stat_result");
+                            ("common::copy_range_uspace", "buf[..next]"); ("common::copy_range_uspace", "buf[..rlen]")]%string.
+Proof. exact x_pool_job_panic_sites_ok. Qed.
+Print Assumptions C04_src_fallback_buffer_holds_every_write.
+Print Assumptions C04_src_pool_job_panic_sites.
 Print Assumptions C04_src_fallback_buffer_holds_every_read.
 Print Assumptions C04_src_fallback_stream_buffer_holds_every_read.
 
